@@ -136,11 +136,12 @@ Proof.
   - destruct (Nat.ltb a 3); lia.
 Qed.
 
-(* earn_roundtrip_no_profit is false in general: user 0 deposits 100 into the
-   fresh vault 2 and withdraws 91; the dust check values the remaining 9 shares
-   with the reduced total value 9 and the old total 100 shares (9*9/100 = 0), so
-   all shares are deleted, the vault record disappears and 9 coins stay in the
-   strategy.  User 1 then deposits 1 and withdraws 10. *)
+(* earn_roundtrip_no_profit is false in general.  W1: user 0 deposits 100 into
+   the fresh vault 2 and withdraws 91; ShareIsDust values the remaining 9 shares
+   with the already reduced total value 9 and the not yet reduced total of 100
+   shares (9*9/100 = 0), so all shares are deleted, the vault record disappears
+   and 9 coins stay in the strategy without an owner.  W2: user 1 then deposits
+   1 (shares are issued 1:1 because there is no vault record) and withdraws 10. *)
 Theorem C11_earn_roundtrip_no_profit_refuted :
   exists e s ops u d x st y, env_wf e /\ Inv e s /\ is_user e u = true /\
     let sa := run e s ops in
@@ -155,15 +156,55 @@ Proof.
 Qed.
 Print Assumptions C11_earn_roundtrip_no_profit_refuted.
 
-(* the same history shows what the dust sweep forfeits: value 100, paid 91, and
-   afterwards no shares, no vault record, 9 coins left in the strategy *)
-Example C11_dust_sweep_forfeits_value :
-  let s1 := run e0 s0 [EDeposit 0 2 100 2] in
-  value_of e0 s1 0 2 = 100 /\
-  out_of (step e0 s1 (EWithdraw 0 2 91 2)) = 91 /\
-  let s2 := run e0 s1 [EWithdraw 0 2 91 2] in
-  shr s2 0%nat 2%nat = 0 /\ vrec s2 2%nat = None /\ total_value e0 s2 2 = Some 9 /\ inv_b e0 s2 = true.
+(* a share price above one (150 coins for 100 shares): withdrawing 1 pays 0 and
+   burns 2/3 of a share (truncation in favour of the vault); withdrawing 149 pays
+   148 and the remaining 2/3 share, valued 2 * (2/3) / 100 = 0, is swept: the
+   vault is left with 2 coins and no shares *)
+Example C11_truncation_and_sweep_at_price_above_one :
+  let s1 := run e0 s0 [EDeposit 0 3 100 1; HardFlow 3 1000; Accrue 3 150] in
+  out_of (step e0 s1 (EWithdraw 0 3 1 1)) = 0 /\
+  shr (run e0 s1 [EWithdraw 0 3 1 1]) 0%nat 3%nat = 100 * PREC - 666666666666666666 /\
+  value_of e0 (run e0 s1 [EWithdraw 0 3 1 1]) 0 3 = 150 /\
+  out_of (step e0 s1 (EWithdraw 0 3 149 1)) = 148 /\
+  vrec (run e0 s1 [EWithdraw 0 3 149 1]) 3%nat = None /\
+  total_value e0 (run e0 s1 [EWithdraw 0 3 149 1]) 3 = Some 2.
 Proof. cbv zeta. repeat split; vm_compute; reflexivity. Qed.
+
+(* What a withdrawal takes from the account beyond what it pays.  Strongest true
+   form: when the remaining shares are kept (not swept as dust), the account's
+   redeemable value falls by at most the payout plus one coin of rounding. *)
+Theorem C11_earn_withdraw_forfeits_only_dust_partial :
+  forall e s u d x st s' w, env_wf e -> Inv e s -> is_user e u = true ->
+  earn_withdraw e s u d x st = Ok s' w -> shr s' u d <> 0 ->
+  value_of e s u d - w - 1 <= value_of e s' u d.
+Proof. exact withdraw_no_sweep_loss. Qed.
+Print Assumptions C11_earn_withdraw_forfeits_only_dust_partial.
+
+(* Refuted without the guard (W1): the dust sweep deletes shares worth 9 coins:
+   value 100, paid 91, value afterwards 0, 9 coins left in a vault without shares. *)
+Theorem C11_earn_withdraw_forfeits_only_dust_refuted :
+  exists e s ops u d x st, env_wf e /\ Inv e s /\ is_user e u = true /\
+    let sa := run e s ops in
+    exists s' w, earn_withdraw e sa u d x st = Ok s' w /\
+      value_of e sa u d = 100 /\ w = 91 /\ value_of e s' u d = 0 /\ shr s' u d = 0 /\
+      total_value e s' d = Some 9 /\ vrec s' d = None.
+Proof.
+  exists e0, s0, [EDeposit 0 2 100 2], 0%nat, 2%nat, 91, 2%nat.
+  split; [exact e0_wf|]. split; [exact s0_inv|]. split; [reflexivity|].
+  cbv zeta. eexists. eexists.
+  split; [vm_compute; reflexivity|]. repeat split; vm_compute; reflexivity.
+Qed.
+Print Assumptions C11_earn_withdraw_forfeits_only_dust_refuted.
+
+(* ... and a bound on what the sweep can take: when a withdrawal removes all of
+   the account's shares, what it forfeits beyond one coin of rounding is below
+   the square root of the vault's value (9 for a vault of 100 above) *)
+Theorem C11_dust_sweep_forfeit_bound :
+  forall e s u d x st s' w V, env_wf e -> Inv e s -> is_user e u = true ->
+  earn_withdraw e s u d x st = Ok s' w -> shr s' u d = 0 -> total_value e s d = Some V ->
+  let l := value_of e s u d - w - 1 in 0 <= l -> l * l < V.
+Proof. exact sweep_forfeit_bound. Qed.
+Print Assumptions C11_dust_sweep_forfeit_bound.
 
 (* others_untouched: an operation leaves the shares of every account other than
    the acting one unchanged, and the savings deposit of every other account
@@ -175,6 +216,15 @@ Theorem C11_others_untouched :
   (w <> earn_acc e -> forall d, sdep (sv s') w d = sdep (sv s) w d).
 Proof. exact others_untouched. Qed.
 Print Assumptions C11_others_untouched.
+
+(* ... and nobody's redeemable value is lowered by an operation of somebody else
+   (deposit, withdrawal incl. the dust sweep, accrual, savings operations, bank
+   sends): truncation always favours the accounts that stay *)
+Theorem C11_others_value_not_reduced :
+  forall e s o s' out, env_wf e -> Inv e s -> step e s o = Ok s' out ->
+  forall w d, actor o <> Some w -> (w < nacc (se e))%nat -> value_of e s w d <= value_of e s' w d.
+Proof. exact others_value_monotone. Qed.
+Print Assumptions C11_others_value_not_reduced.
 
 (* A failed operation leaves no change (transaction discarded). *)
 Theorem C11_failed_changes_nothing :
